@@ -35,20 +35,21 @@ func TestMain(m *testing.M) { hx.Main(m) }
 
 // Case is one embedded site in one host document under one registry configuration.
 type Case struct {
-	Host     string `json:"host"`                // html-script html-style html-iframe html-svg html-math html-style-attr html-on-attr html-data-uri svg-style-text svg-style-cdata svg-style-attr css-data-uri
-	TypeAttr string `json:"type_attr,omitempty"` // type attribute (script/style), contentStyleType (svg hosts)
-	Payload  string `json:"payload"`             // the embedded content as the embedded minifier should see it (before documented trimming)
-	Quote    string `json:"quote,omitempty"`     // attribute hosts: " ' or empty (the generator's choice of delimiter)
-	Encode   int    `json:"encode,omitempty"`    // attribute hosts: spelling of character references
-	Reg      string `json:"reg"`                 // absent stub stub-pattern fail-plain fail-parse real
-	StubOut  string `json:"stub_out,omitempty"`
-	FailOff  int    `json:"fail_off,omitempty"` // offset of the reported error inside the payload (fail-parse)
-	Pre      string `json:"pre,omitempty"`
-	Post     string `json:"post,omitempty"`
-	Others   bool   `json:"others"`                // the other real minifiers are registered too
-	KeepQ    bool   `json:"keep_quotes,omitempty"` // html KeepQuotes
-	Attr     string `json:"attr,omitempty"`        // attribute name for attribute hosts
-	Tag      string `json:"tag,omitempty"`         // element name for attribute hosts
+	Host      string `json:"host"`                // html-script html-style html-iframe html-svg html-math html-style-attr html-on-attr html-data-uri svg-style-text svg-style-cdata svg-style-attr css-data-uri
+	TypeAttr  string `json:"type_attr,omitempty"` // type attribute (script/style), contentStyleType (svg hosts)
+	Payload   string `json:"payload"`             // the embedded content as the embedded minifier should see it (before documented trimming)
+	Quote     string `json:"quote,omitempty"`     // attribute hosts: " ' or empty (the generator's choice of delimiter)
+	Encode    int    `json:"encode,omitempty"`    // attribute hosts: spelling of character references
+	Reg       string `json:"reg"`                 // absent stub stub-pattern fail-plain fail-parse real
+	StubOut   string `json:"stub_out,omitempty"`
+	FailOff   int    `json:"fail_off,omitempty"` // offset of the reported error inside the payload (fail-parse)
+	Pre       string `json:"pre,omitempty"`
+	Post      string `json:"post,omitempty"`
+	Others    bool   `json:"others"`                // the other real minifiers are registered too
+	KeepQ     bool   `json:"keep_quotes,omitempty"` // html KeepQuotes
+	ExtraAttr string `json:"extra_attr,omitempty"`  // further attributes on the script/style element of raw hosts
+	Attr      string `json:"attr,omitempty"`        // attribute name for attribute hosts
+	Tag       string `json:"tag,omitempty"`         // element name for attribute hosts
 }
 
 const rule = "cases = (host construct, type attribute, payload, attribute spelling, registry configuration: embedded minifier absent / recording stub (literal or pattern registered) with a drawn output / failing stub (plain error, *parse.Error at a drawn offset) / the real minifier, other minifiers present or not, surrounding markup); decoy stubs are registered for the media types a wrong default would pick; oracle = commutation law checked through an independent parse of the host output (x/net/html tokenizer, encoding/xml, data URI decoding via the reference call): the stub saw exactly the decoded payload (documented trimming), was chosen by the media type from the type attribute or the documented default, got inline=1 in attribute contexts and for inline SVG, and its output stands at that place correctly re-escaped; absent => content unchanged; failing => the outer call fails with the stub's error, a *parse.Error pointing into the embedded region of the outer document; distinct by hash; non-trivial = payload non-empty and (a stub or real minifier ran or was bypassed) and the host output differs from the input or an error came back"
@@ -279,10 +280,10 @@ func hostSource(c Case) hostDoc {
 	}
 	switch c.Host {
 	case "html-script":
-		head := c.Pre + "<script" + typeAttr + ">"
+		head := c.Pre + "<script" + c.ExtraAttr + typeAttr + ">"
 		return hostDoc{src: head + c.Payload + "</script>" + c.Post, kind: "html", start: len(head), end: len(head) + len(c.Payload)}
 	case "html-style":
-		head := c.Pre + "<style" + typeAttr + ">"
+		head := c.Pre + "<style" + c.ExtraAttr + typeAttr + ">"
 		return hostDoc{src: head + c.Payload + "</style>" + c.Post, kind: "html", start: len(head), end: len(head) + len(c.Payload)}
 	case "html-iframe":
 		head := c.Pre + "<iframe>"
@@ -827,7 +828,7 @@ func noXMLSpecial(s string) string {
 	return s
 }
 
-var pres = []string{"", "<p>a ", "<!doctype html><title>t</title>", "<div class=a>", "<script>var pre = 1</script>", "<style>pre{color:teal}</style>", "a\nb\n", "<p style=\"color:teal\" onclick=\"pre()\">x</p>\n"}
+var pres = []string{"<script type=\"application/ld+json\">{ \"pre\" : 1 }</script>", "<script type=\"text/template\"><b> pre </b></script>", "<style type=\"text/less\">@pre : 1;</style>", "", "<p>a ", "<!doctype html><title>t</title>", "<div class=a>", "<script>var pre = 1</script>", "<style>pre{color:teal}</style>", "a\nb\n", "<p style=\"color:teal\" onclick=\"pre()\">x</p>\n"}
 var posts = []string{"", " b", "<p>c</p>", "\n<script>var post = 2</script>", "<style>post{color:blue}</style>"}
 var svgPres = []string{"", "<g id=\"a\"/>", "<style>pre{fill:teal}</style>", "\n  <title>t</title>\n"}
 
@@ -964,6 +965,10 @@ func genCase(t *rapid.T, g0 map[string]bool) Case {
 			c.Encode = rapid.IntRange(0, 2).Draw(t, "encode")
 			c.StubOut = genText(t, "stubout2", 6, noXMLSpecial)
 		}
+	}
+	if c.Host == "html-script" || c.Host == "html-style" {
+		// other attributes on the element: the type of an earlier element must not leak into this one
+		c.ExtraAttr = rapid.SampledFrom([]string{"", "", " class=x", " nonce=\"abc\"", " media=\"print\"", " id=s defer"}).Draw(t, "extraattr")
 	}
 	if c.Reg == "fail-parse" && g0["noInPlaceEditsBeforeError"] {
 		// text that is collapsed in place in front of the embedded content shifts the reported line (known finding)
